@@ -405,6 +405,81 @@ func runC12(c *Ctx) {
 								}
 							}
 						}
+						// form 4: interval = next(interval) with next a pure function returning the
+						// doubled argument, or the cap on the edge cap < doubled
+						if hc, ok := val.(*ssa.Call); ok && unconditional(in) {
+							if h := hc.Call.StaticCallee(); h != nil && w.IsMod[h] && len(h.Blocks) > 0 && len(hc.Call.Args) >= 1 {
+								var pIdx = -1
+								for i, a := range hc.Call.Args {
+									if isIntervalLoad(a) {
+										pIdx = i
+									}
+								}
+								if pIdx >= 0 && pIdx < len(h.Params) {
+									prm := h.Params[pIdx]
+									dblOfParam := func(v ssa.Value) bool {
+										bo, ok := v.(*ssa.BinOp)
+										if !ok {
+											return false
+										}
+										isP := func(x ssa.Value) bool { return rawParamOf(x, h) == prm }
+										switch bo.Op {
+										case token.MUL:
+											kx, okx := constInt(bo.X)
+											ky, oky := constInt(bo.Y)
+											return (isP(bo.X) && oky && ky == 2) || (isP(bo.Y) && okx && kx == 2)
+										case token.ADD:
+											return isP(bo.X) && isP(bo.Y)
+										case token.SHL:
+											ky, oky := constInt(bo.Y)
+											return isP(bo.X) && oky && ky == 1
+										}
+										return false
+									}
+									all, nCap, nDbl := true, 0, 0
+									for _, r := range returnsOf(h) {
+										if len(r.Results) != 1 {
+											all = false
+											continue
+										}
+										for _, lf := range w.guardedLeaves(r.Results[0], r) {
+											v := w.resolveLoad(lf.val)
+											switch {
+											case isCap(v):
+												ok := false
+												for _, f := range lf.facts {
+													if f.Op == "<" && f.Truth && isCap(f.X) && dblOfParam(w.resolveLoad(f.Y)) {
+														ok = true
+													}
+												}
+												if ok {
+													nCap++
+												} else {
+													all = false
+												}
+											case dblOfParam(v):
+												ok := false
+												for _, f := range lf.facts {
+													if f.Op == "<" && !f.Truth && isCap(f.X) && w.resolveLoad(f.Y) == v {
+														ok = true
+													}
+												}
+												if ok {
+													nDbl++
+												} else {
+													all = false
+												}
+											default:
+												all = false
+											}
+										}
+									}
+									if all && nCap > 0 && nDbl > 0 {
+										okDouble, okCap = true, true
+									}
+								}
+							}
+						}
 						// form 3: v := interval*2; if v > cap { v = cap }; interval = v
 						if ph, ok := val.(*ssa.Phi); ok && len(ph.Edges) == 2 && unconditional(in) {
 							for i := 0; i < 2; i++ {
